@@ -1,9 +1,9 @@
 //@ assume: the Reader is abstract (trait with a ghost `remaining()` byte count): read_u64 either fails or consumes exactly 8 bytes -- the behaviour proved for KReader-style readers and exercised for BinReader in C11/ser_prims
 //@ assume: T6 rewrites: `Vec::with_capacity(E)` => `vec_with_capacity_checked(E, reader.remaining())` whose precondition is the C11 allocation bound (8*E <= 100_000 + 64*remaining); `min` from std::cmp => local min; `for _ in 0..count` kept (Verus range loops) with spliced invariants
-//@ assume: decided here, UNBOUNDED in the declared count and in the input length: the segment count/position readers never panic, never pre-allocate beyond the bound, return exactly `count` positions on success, and consume 8 bytes per position (progress: a count larger than the remaining input fails)
+//@ assume: decided here, UNBOUNDED in the declared count and in the input length: the segment count/position readers never panic, never pre-allocate beyond the bound, return exactly `count` positions / items on success, consume 8 bytes per position and at least one byte per item (progress: a count larger than the remaining input fails)
 //@ assume: 64-bit target
-//@ assumed_items: 1
-//@ fns: segment::read_segment_item_count, segment::read_segment_positions
+//@ assumed_items: 2
+//@ fns: segment::read_segment_item_count, segment::read_segment_positions, segment::read_segment_items
 global size_of usize == 8;
 
 pub enum Error { IOErr, TooLargeReadErr, SortError, CorruptedData }
@@ -29,6 +29,18 @@ fn vec_with_capacity_checked(remaining: Ghost<nat>, cap: usize) -> (r: Vec<u64>)
     ensures r@.len() == 0
 { Vec::with_capacity(cap) }
 
+/// element decoders: succeed having consumed at least one byte, or fail (every wire element type)
+pub trait Readable: Sized {
+    fn read<R: Reader>(reader: &mut R) -> (r: Result<Self, Error>)
+        ensures r.is_ok() ==> final(reader).remaining() < old(reader).remaining(),
+                r.is_err() ==> final(reader).remaining() <= old(reader).remaining();
+}
+#[verifier::external_body]
+fn vec_with_capacity_checked_t<T>(remaining: Ghost<nat>, cap: usize) -> (r: Vec<T>)
+    requires cap <= 1024,   // at most SEGMENT_READ_PREALLOC_ITEMS slots are reserved before any item is read
+    ensures r@.len() == 0
+{ Vec::with_capacity(cap) }
+
 //@ extract core/src/core/pmmr/segment.rs :: fn read_segment_item_count
 //@   ensures:
 //@+    r matches Ok(c) ==> c <= 1_000_000 && final(reader).remaining() == old(reader).remaining() - 8,
@@ -49,3 +61,17 @@ fn vec_with_capacity_checked(remaining: Ghost<nat>, cap: usize) -> (r: Vec<u64>)
 //@+        reader.remaining() + 8 * i == old(reader).remaining(),
 //@ end
 //@ canary read_segment_positions: r.is_err()
+
+//@ extract core/src/core/pmmr/segment.rs :: fn read_segment_items
+//@   rewrite `Vec::with_capacity(` => `vec_with_capacity_checked_t(Ghost(reader.remaining()), `
+//@   rewrite `for _ in 0..count {` => `for i in 0..count`
+//@   rewrite `\t\titems.push(T::read(reader)?);` => `\t{\n\t\titems.push(T::read(reader)?);`
+//@   requires:
+//@+    count <= 1_000_000,
+//@   ensures:
+//@+    r matches Ok(v) ==> v@.len() == count && final(reader).remaining() + count <= old(reader).remaining(),
+//@   loop 1:
+//@+    invariant
+//@+        items@.len() == i,
+//@+        reader.remaining() + i <= old(reader).remaining(),
+//@ end
